@@ -62,6 +62,24 @@ pub fn make_cas(notify: &str, ca_repository: &str) -> Cas {
     Cas { with_notify: make(true), without_notify: make(false), notify, ca_repository }
 }
 
+/// The DER encoding of a well-formed trust anchor certificate (fresh key).
+pub fn make_ta_der(ca_repository: &str) -> Vec<u8> {
+    let signer = OpenSslSigner::new();
+    let key = signer.create_key(PublicKeyFormat::Rsa).expect("create key");
+    let public = signer.get_key_info(&key).expect("key info");
+    let ca_repository = uri::Rsync::from_str(ca_repository).expect("rsync uri");
+    let mut cert = TbsCert::new(
+        1u64.into(), public.to_subject_name(),
+        Validity::new(Time::utc(2020, 1, 2, 0, 0, 0), Time::utc(2090, 1, 1, 0, 0, 0)),
+        None, public.clone(), KeyUsage::Ca, Overclaim::Refuse,
+    );
+    cert.set_basic_ca(Some(true));
+    cert.set_ca_repository(Some(ca_repository.clone()));
+    cert.set_rpki_manifest(Some(ca_repository.join(b"ca.mft").unwrap()));
+    cert.build_v4_resource_blocks(|b| b.push(Prefix::from_v4_str("10.0.0.0/8").unwrap()));
+    cert.into_cert(&signer, &key).expect("sign").to_captured().into_bytes().to_vec()
+}
+
 /// A one-object RRDP repository on the test server.
 pub fn serve_repository(srv: &httpsrv::Server, dir: &str) {
     let session = "9df4b597-af9e-4dca-bdda-719cce2c4e28";
